@@ -299,8 +299,11 @@ impl Universe {
                 ZR::NameError => return Truth { chain, finals: vec![], soa: Some(z.soa.rr(&z.apex)), name_error: true, looped: false },
                 ZR::Alias(c) => {
                     let WData::Name(t) = c.2.clone() else { unreachable!() };
+                    seen.insert(name.clone());
                     chain.push(c);
-                    if !seen.insert(name.clone()) || chain.len() > 64 {
+                    // the alias leads back to a name already visited (or the
+                    // chain is absurdly long): no link is listed twice
+                    if seen.contains(&t.lower()) || chain.len() > 64 {
                         return Truth { chain, finals: vec![], soa: None, name_error: false, looped: true };
                     }
                     name = t.lower();
